@@ -142,3 +142,40 @@ def call_name(n):
     if isinstance(f, ast.Name):
         return f.id
     return None
+
+
+def run_shared(mod, M, rep, tier, mapping):
+    """run the rules of another property's module and report the mapped ones under this property's rule ids
+    (mapping: foreign rule id -> own rule id); everything else the foreign module reports is dropped"""
+    orig = (rep.rule, rep.ok, rep.bad, rep.check)
+
+    own = set(mapping.values())
+
+    def fix(rid):
+        if rid in own or rid.startswith("_"):
+            return rid
+        return mapping.get(rid, "_" + rid)
+
+    def rule(rid, title, floor=0, technique=""):
+        if rid in mapping:
+            return orig[0](mapping[rid], title + " (shared with %s)" % rid, floor, technique)
+        return orig[0]("_" + rid, title, 0, technique)
+    rep.rule = rule
+    rule_ids = {}
+    rep.ok = lambda rid, *a, **k: orig[1](fix(rid), *a, **k)
+    rep.bad = lambda rid, *a, **k: orig[2](fix(rid), *a, **k)
+
+    def check(rid, key, cond, message="", site=None, detail=None, what=None):
+        if cond:
+            orig[1](fix(rid), key, what)
+        else:
+            orig[2](fix(rid), key, message, site, detail)
+        return cond
+    rep.check = check
+    try:
+        mod.run(M, rep, tier, None)
+    finally:
+        rep.rule, rep.ok, rep.bad, rep.check = orig
+    for rid in list(rep.rules):
+        if rid.startswith("_"):
+            del rep.rules[rid]
